@@ -98,6 +98,12 @@ func c5Match(topic, filter string) bool {
 
 func c5Gen(r *Rng, i int) *Sx {
 	cfgExp := Pick(r, []uint64{0, 1, 2, 5, 60, 60, 7200, 7200, 7200, 4294967295})
+	// "raise" scenarios (1 in 5): v5 sessions connect with a short Session Expiry Interval and DISCONNECT with a longer
+	// one (within the configured maximum), so that a later resume falls between the two values
+	raise := r.Chance(1, 5)
+	if raise {
+		cfgExp = Pick(r, []uint64{7200, 4294967295})
+	}
 	onlyonce := r.Bool()
 	mode := "overlap"
 	if onlyonce {
@@ -142,6 +148,10 @@ func c5Gen(r *Rng, i int) *Sx {
 	connect := func(cid string) {
 		ver := Pick(r, []int{3, 4, 4, 5, 5, 5})
 		clean := r.Chance(1, 4)
+		short := raise && r.Chance(3, 4)
+		if short {
+			ver, clean = 5, r.Chance(1, 8)
+		}
 		s := &c5Sock{label: len(socks) + 1, ver: ver, cid: cid, open: true, live: true, nextPid: 1}
 		socks = append(socks, s)
 		props := []*Sx{}
@@ -149,6 +159,9 @@ func c5Gen(r *Rng, i int) *Sx {
 		if ver == 5 {
 			if r.Chance(5, 6) {
 				sei := Pick(r, c5Seis)
+				if short {
+					sei = Pick(r, []uint64{1, 2, 5})
+				}
 				props = append(props, K("sei", U(sei)))
 				inPlay[sei] = true
 				e = sei
@@ -284,6 +297,10 @@ func c5Gen(r *Rng, i int) *Sx {
 		if nosubs {
 			w["subscribe"] += 20
 		}
+		if raise {
+			w["disconnect"] += 10
+			w["advance"] += 4
+		}
 		if len(live) == 0 {
 			w["subscribe"], w["unsubscribe"], w["publish"], w["ack"], w["disconnect"] = 0, 0, 0, 0, 0
 			w["connect"] += 20
@@ -412,8 +429,11 @@ func c5Gen(r *Rng, i int) *Sx {
 			s := Pick(r, live)
 			props := []*Sx{}
 			ss := sess[s.cid]
-			if s.ver == 5 && r.Chance(1, 2) {
+			if s.ver == 5 && (r.Chance(1, 2) || raise) {
 				sei := Pick(r, []uint64{0, 1, 5, 100, 100000})
+				if raise && r.Chance(3, 4) {
+					sei = Pick(r, []uint64{30, 100})
+				}
 				props = append(props, K("sei", U(sei)))
 				inPlay[sei] = true
 				if !(ss.e == 0 && sei != 0) {
